@@ -89,6 +89,11 @@ theorem Legacy.timeout_answers_empty_while_queued :
       some ({ packets := [7], token := false, pendingSignals := 0, consumers := [.done []] }, [.returned 0 []]) := by
   decide
 
+/-- the drain hand-shake between `closePacketQueue` and the sender is a rendezvous (unbuffered channel): `waitForDrain`
+    returns only when the sender has really taken what was queued. With a buffered `drain` a stale token from earlier traffic
+    lets `close` discard packets the transport could still take (read from the source) -/
+theorem drain_is_rendezvous : Gen.chanPacketQueueDrain = 0 := by decide
+
 /-! non-vacuity: a reachable state of the repaired queue in which the race happened and the token saves it -/
 example : (sys 1 1).run (sys 1 1).init [.start 0, .get 0, .add [7], .enter 0, .wake 0, .get 0] =
     some ({ packets := [], token := false, pendingSignals := 0, consumers := [.done [7]] }, [.returned 0 [7]]) := by decide
